@@ -241,6 +241,53 @@ def make_machine(acc):
     return Reassembly
 
 
+# ---- retransmissions arbitrarily late: long streams of small segments, duplicates of early segments far behind their originals
+def evaluate_late_dups(spec):
+    """spec = {"spec": stream spec, "dups": [[dir, original index, distance], ...]}: every segment delivered in order (directions
+    alternating in runs), plus exact duplicates inserted `distance` same-direction segments after their original"""
+    sp = spec["spec"]
+    streams, recs, segs = make_streams(sp)
+    order = []
+    i = {False: 0, True: 0}
+    turn = False
+    # client's first record first, then runs of up to 8 segments per direction
+    while i[False] < len(segs[False]) or i[True] < len(segs[True]):
+        d = turn if i[turn] < len(segs[turn]) else (not turn)
+        for _ in range(8):
+            if i[d] < len(segs[d]):
+                order.append((d, i[d]))
+                i[d] += 1
+        turn = not d
+    deliveries = list(order)
+    far = 0
+    for d, oi, dist in spec["dups"]:
+        d = bool(d)
+        if not segs[d]:
+            continue
+        oi %= len(segs[d])
+        # position of the (oi + dist)-th segment of direction d in the delivery list
+        pos = [k for k, (dd, si) in enumerate(deliveries) if dd == d and si >= min(oi + dist, len(segs[d]) - 1)]
+        k = pos[0] + 1 if pos else len(deliveries)
+        deliveries.insert(k, (d, oi))
+        far = max(far, min(dist, len(segs[d]) - 1 - oi))
+    sig, detail, complete = check_component(sp, deliveries)
+    return {"sig": ("late-duplicate " + sig) if sig else None, "detail": detail, "nontrivial": far >= 8,
+            "labels": ["late-dups", "distance:%s" % ("<8" if far < 8 else "8-64" if far <= 64 else ">64"),
+                       "segments:%s" % ("<=64" if max(len(segs[False]), len(segs[True])) <= 64 else ">64")]}
+
+
+@st.composite
+def late_dup_spec(draw):
+    nrec = draw(st.integers(4, 30))
+    recs = [[draw(st.integers(0, 1)), 0x17, draw(st.integers(0, 60))] for _ in range(nrec)]
+    # many small segments: a cut every few bytes
+    step = draw(st.integers(3, 12))
+    sp = {"seed": draw(st.integers(0, 2 ** 32 - 1)), "recs": recs, "cuts": [list(range(step - 1, 4000, step)), list(range(step, 4000, step + 1))],
+          "isn": [draw(ISN), draw(ISN)]}
+    dups = draw(st.lists(st.tuples(st.integers(0, 1), st.integers(0, 400), st.one_of(st.integers(1, 10), st.integers(1, 400))).map(list), min_size=1, max_size=4))
+    return {"spec": sp, "dups": dups}
+
+
 # ---- exhaustive cut sets for short streams (component level)
 def exhaustive_cut_specs(n_streams, seed):
     rnd = random.Random(seed)
@@ -354,6 +401,7 @@ def stages(tier):
     return [
         machine_stage("reassembly-machine", make_machine, runs=4000 if quick else 200000, steps=30, evaluate=evaluate_component),
         Stage("exhaustive-cut-subsets", evaluate_exhaustive, specs=exhaustive_cut_specs(64 if quick else 2000, 11)),
+        Stage("late-duplicates", evaluate_late_dups, strategy=lambda t: late_dup_spec(), examples=600 if quick else 20000),
         Stage("e2e-schedules", evaluate_e2e, strategy=e2e_strategy, examples=600 if quick else 20000),
         Stage("probe-F05r", evaluate_e2e, specs=[F05R_REPRO], probe="F05r", serial=True),
     ]
